@@ -369,6 +369,22 @@ func (g *genCtx) gen(t *rapid.T, depth int, thenLeft bool) *Node {
 		if rapid.Bool().Draw(t, "middle") {
 			nd.Kids = append(nd.Kids, &Node{Kind: KAtom, Atom: genDataAtom(t, g.cfg, rapid.SampledFrom(DataPool).Draw(t, "regex").Regex)})
 		}
+		switch rapid.SampledFrom([]string{"plain", "plain", "alt", "two"}).Draw(t, "capshape") {
+		case "alt":
+			// the variable inside an alternation: the other branch is shorter than any captured value
+			use := genDataAtom(t, g.cfg, "(?:@"+name+"@|q)!")
+			nd.Kids = append(nd.Kids, &Node{Kind: KAtom, Atom: use})
+			return nd
+		case "two":
+			// two variables captured by the head, used by two alternatives that differ in nothing but the variable
+			*g.capCount++
+			name2 := fmt.Sprintf("v%d", *g.capCount)
+			capAtom.Regex = "(?P<" + name + ">k[0-9])(?P<" + name2 + ">k[0-9])"
+			a := genDataAtom(t, g.cfg, "@"+name+"@!")
+			b := &Atom{Key: a.Key, Regex: "@" + name2 + "@!", Conv: a.Conv}
+			nd.Kids = append(nd.Kids, &Node{Kind: KOr, Kids: []*Node{{Kind: KAtom, Atom: a}, {Kind: KAtom, Atom: b}}})
+			return nd
+		}
 		use := genDataAtom(t, g.cfg, "@"+name+"@!")
 		useNode := &Node{Kind: KAtom, Atom: use}
 		if rapid.IntRange(0, 3).Draw(t, "neguse") == 0 {
@@ -429,7 +445,7 @@ func GenRuns(t *rapid.T, label string) []Run {
 			case 0:
 				data = append(data, rapid.SampledFrom(fillers).Draw(t, label+"filler")...)
 			case 1:
-				data = append(data, rapid.SampledFrom([]string{"k7", "k3", "k7!", "k3!", "k9!"}).Draw(t, label+"cap")...)
+				data = append(data, rapid.SampledFrom([]string{"k7", "k3", "k7!", "k3!", "k9!", "q!", "k3k7"}).Draw(t, label+"cap")...)
 			default:
 				w := rapid.SampledFrom(DataPool).Draw(t, label+"w").Witnesses
 				data = append(data, rapid.SampledFrom(w).Draw(t, label+"wi")...)
